@@ -229,10 +229,9 @@ func (s *Set[T]) Equal(other *Set[T]) bool {
 		return false
 	}
 
-	ctx := context.Background()
-	iter := s.unsafeIterator()
-
 	if s.isOrdered() {
+		ctx := context.Background()
+		iter := s.unsafeIterator()
 		otherIter := other.Iterator()
 		for iter.Next(ctx) && otherIter.Next(ctx) {
 			if iter.Value() != otherIter.Value() {
@@ -243,13 +242,16 @@ func (s *Set[T]) Equal(other *Set[T]) bool {
 		return iter.Close() == nil && otherIter.Close() == nil
 	}
 
-	for iter.Next(ctx) {
-		if !other.Check(iter.Value()) {
+	// range over the map here, while the lock is held: the map
+	// iterator runs in a goroutine of its own, which would keep
+	// reading the map after this method has returned.
+	for item := range s.hash {
+		if !other.Check(item) {
 			return false
 		}
 	}
 
-	return iter.Close() == nil
+	return true
 }
 
 // MarshalJSON generates a JSON array of the items in the set.
